@@ -586,6 +586,17 @@ private def exSt : St :=
     metadata := [(HMap.name "x-a", [49]), (HMap.name "te", [120]), (HMap.name "x-a", [50])] }
 
 example : Utf8.valid exSt.message = true := by decide
+
+/- … the hypotheses of `C04_server_failure_reaches_client` are met by it, and the three outcomes of
+`create_response` all occur: a 503 whose headers carry a status fails with that status, OK in the
+headers gives the unclassified `new_empty` stream, no status gives the stream classified at its end -/
+example : exSt.code ≠ .ok := by decide
+example : createResponse .fixed 503 [(GRPC_STATUS, [55]), (GRPC_STATUS_DETAILS, HMap.name "QUI=")] =
+    .fail { code := .permissionDenied, message := [], details := [65, 66], metadata := [] } := by decide +kernel
+example : createResponse .fixed 200 [(GRPC_STATUS, [48])] = .stream .empty ∧
+    createResponse .fixed 404 [(CONTENT_TYPE, HMap.name "text/html")] = .stream (.response 404) := by decide
+example : repollAfterTrailersTaken (.response 503) = some ⟨14, .http⟩ ∧
+    repollAfterTrailersTaken (.response 200) = none := by decide
 /- … and its wire form is what the theorems say -/
 example : (toHeaderMap .fixed exSt).toOption = some
     [(HMap.name "x-a", [49]), (HMap.name "x-a", [50]), (GRPC_STATUS, [49, 53]),
